@@ -412,17 +412,17 @@ class World:
             self.inst[i].set_render_method(None if im[i - 1] == "unset" else im[i - 1])
 
     def level_power(self) -> int:
-        """How many of the levels 0, 1, 3, 4, 9 the decoding can tell apart on this world's
-        pictures (a machinery self-test: the pictures must not be so compressible that every
-        level looks the same)."""
-        if self.fam == "block":
-            return 5
-        seen = set()
+        """How many of the levels 0, 1, 3, 4, 9 give different zlib streams / PNG files for this
+        world's still picture (a machinery self-test that does not involve the library: the
+        pictures must not be so compressible that every level looks the same)."""
+        raw = self.src1.tobytes()
+        z = {zlib.compress(raw, L) for L in (0, 1, 3, 4, 9)}
+        pngs = set()
         for L in (0, 1, 3, 4, 9):
-            o = self.do({"r": "draw", "i": 1, "an": False, "args": [{"k": "compress", "v": enc(L)}]})
-            if o["res"] == "ok" and L in o["lv"]:
-                seen.add(tuple(o["lv"]))
-        return len(seen)
+            buf = io.BytesIO()
+            self.src1.save(buf, "png", compress_level=L)
+            pngs.add(buf.getvalue())
+        return min(len(z), len(pngs))
 
 
 SKIP = {"res": "skip", "wrote": "skip", "ncmd": 0, "zs": [], "er": False, "lv": [], "dg": ""}
